@@ -36,6 +36,7 @@ type shared struct {
 	passed  [MaxThreads]int // points passed
 	abort   bool
 	current int
+	gs      [MaxThreads]uintptr // goroutine identity of every harness thread
 }
 
 var sh shared
@@ -113,17 +114,31 @@ func lockWord(p *int32) int32 { return *p }
 //go:noinline
 func setLockWord(p *int32, v int32) { *p = v }
 
-// Current returns the id of the thread that holds the baton (the caller, when called from
-// a harness thread).
+// Current returns the id of the harness thread that is calling, or -1 when the caller is
+// not the thread that holds the baton: set-up code on the controller goroutine, or a
+// goroutine the harness does not know (a finalizer, a goroutine started by the library).
 //
 //go:norace
 //go:noinline
-func Current() int { return sh.current }
+func Current() int {
+	c := sh.current
+	if c >= 0 && sh.gs[c] != 0 && sh.gs[c] != G() {
+		return -1
+	}
+	return c
+}
+
+//go:norace
+//go:noinline
+func registerG(id int) { sh.gs[id] = G() }
 
 // Point is a scheduling point: the calling thread yields to the controller, which decides
 // who runs next.
 func Point(label string) {
 	id := Current()
+	if id < 0 {
+		return // not a harness thread: nothing to schedule
+	}
 	park(id, stAtPoint, label, 0, nil)
 	waitTurn(id)
 	if ab, _ := resumeInfo(id); ab {
@@ -134,6 +149,9 @@ func Point(label string) {
 // Choose asks the controller for an environment answer in [0,n); no thread switch happens.
 func Choose(label string, n int) int {
 	id := Current()
+	if id < 0 {
+		return 0
+	}
 	park(id, stChoice, label, n, nil)
 	waitTurn(id)
 	ab, a := resumeInfo(id)
@@ -147,6 +165,17 @@ func Choose(label string, n int) int {
 // is disabled until it is released.
 func Lock(word *int32) {
 	id := Current()
+	if id < 0 {
+		// set-up code on the controller goroutine or a goroutine the harness does not know: it cannot
+		// be scheduled, only wait a bounded while (nobody can release the lock during set-up)
+		for spins := 0; !TryAcquire(word); spins++ {
+			if spins > 2000000 {
+				panic("verif: a goroutine outside the explored threads waits for a lock that is not released (deadlock)")
+			}
+			runtime.Gosched()
+		}
+		return
+	}
 	for {
 		Point("lock")
 		if lockWord(word) == 0 {
@@ -261,6 +290,7 @@ func (e *Explorer) Run(prefix []int) (x *Execution, err error) {
 				}
 			}()
 			// initial point: wait to be scheduled for the first time
+			registerG(i)
 			waitTurn(i)
 			if ab, _ := resumeInfo(i); ab {
 				panic(abortT{})
